@@ -348,3 +348,66 @@ Example C15_validate_examples :
    V Gen.Tables_v2_8.tables "2.8" TOLERANT "pid|1||3|a^b&c^d" = Some 6 /\
    V Gen.Tables_v2_8.tables "2.8" TOLERANT "PID|1||3|a^b&c^d" = Some 5).
 Proof. vm_compute. repeat split; reflexivity. Qed.
+
+(* ============================================================================================ *)
+(* MESSAGE LEVEL, DEFAULT path: parse_message(text, validation_level=lvl) with find_groups=True
+   and the shipped libraries returns a Message or raises one of the library's exceptions - for
+   EVERY text, both levels - and to_er7() of every Message that parse_message returned (either mode)
+   succeeds.  The group search of Model/Groups.v is covered completely: the parents stack is never
+   empty and always contains the entry list.index looks for, the current parent pointer always
+   addresses a group, every row the search visits resolves, the recursion depth is bounded by the
+   nesting depth of the shipped structures (kernel-checked <= 12 against the fuel of 40 that stands
+   for CPython's RecursionError), repetitions[...] is only read for declared rows, and the
+   `except AttributeError` fallback is never needed; the MSH segment stays the first top-level
+   child, so Message._get_encoding_chars finds MSH-1/MSH-2 with at least four delimiters.
+   Proofs: Proofs/NoCrashGroupedCore.v (the search loop, generic in the segment parser; table
+   premises `grp_tables_ok` / `msh_top_ok` decided by vm_compute for all shipped versions) and
+   Proofs/NoCrashGrouped.v (message level). *)
+From HL7 Require Proofs.NoCrashGrouped.
+
+Theorem C15_parse_message_grouped_no_crash : forall dflt lvl (text : str),
+  (exists r, parse_message tables_of dflt lvl true text = Ok r) \/
+  (exists c, parse_message tables_of dflt lvl true text = Err (HL7 c)).
+Proof. exact Proofs.NoCrashGrouped.parse_message_grouped_outcome. Qed.
+Print Assumptions C15_parse_message_grouped_no_crash.
+
+Theorem C15_parse_message_no_crash : forall dflt lvl find_groups (text : str),
+  (exists r, parse_message tables_of dflt lvl find_groups text = Ok r) \/
+  (exists c, parse_message tables_of dflt lvl find_groups text = Err (HL7 c)).
+Proof.
+  intros dflt lvl [|] text; [apply C15_parse_message_grouped_no_crash|apply C15_parse_message_flat_no_crash].
+Qed.
+Print Assumptions C15_parse_message_no_crash.
+
+Theorem C15_parse_message_never_crashes : forall dflt lvl find_groups (text : str) k,
+  parse_message tables_of dflt lvl find_groups text <> Err (Crash k) /\
+  parse_message tables_of dflt lvl find_groups text <> Err OutOfFuel /\
+  parse_message tables_of dflt lvl find_groups text <> Err PyValueError.
+Proof.
+  intros dflt lvl fg text k.
+  destruct (C15_parse_message_no_crash dflt lvl fg text) as [[r ->]|[c ->]]; repeat split; discriminate.
+Qed.
+Print Assumptions C15_parse_message_never_crashes.
+
+(* to_er7() of every message that parsed, in either mode *)
+Theorem C15_enc_message_total : forall dflt lvl find_groups (text : str) t m,
+  parse_message tables_of dflt lvl find_groups text = Ok (t, m) -> exists x, enc_message t lvl m = Ok x.
+Proof. exact Proofs.NoCrashGrouped.parse_message_encodes. Qed.
+Print Assumptions C15_enc_message_total.
+
+Theorem C15_parse_message_then_to_er7 : forall dflt lvl (text : str),
+  (exists t m x, parse_message tables_of dflt lvl true text = Ok (t, m) /\ enc_message t lvl m = Ok x) \/
+  (exists c, parse_message tables_of dflt lvl true text = Err (HL7 c)).
+Proof. exact Proofs.NoCrashGrouped.parse_message_grouped_total. Qed.
+Print Assumptions C15_parse_message_then_to_er7.
+
+Example C15_message_grouped_examples :
+  (let M lvl (s : str) := parse_message tables_of "2.5" lvl true s in
+   let E lvl (s : str) := match M lvl s with Ok (t, m) => outcome_code (enc_message t lvl m) | Err x => 100 + exn_code x end in
+   E TOLERANT ("MSH|^~\&|a|b|c|d|20200101||ORU^R01|1|P|2.5" ++ [CR] ++ "PID|1" ++ [CR] ++ "ZXX|q" ++ [CR] ++
+               "OBR|1" ++ [CR] ++ "OBX|1" ++ [CR] ++ "OBR|2" ++ [CR] ++ "OBX|1") = 0 /\
+   E STRICT ("MSH|^~\&|a|b|c|d|20200101||ADT^A01|1|P|2.5" ++ [CR] ++ "OBR|1") = 105 /\
+   E TOLERANT ("MSH|^~\&|a|b|c|d|20200101||ADT^A01|1|P|2.5" ++ [CR] ++ " PID|1" ++ [CR] ++ "pid|2") = 0 /\
+   E TOLERANT "MSH|^~\&|a|b|c|d|20200101||XXX^Y01|1|P|2.5" = 0 /\
+   E TOLERANT "PID|1" = 101).
+Proof. vm_compute. repeat split; reflexivity. Qed.
